@@ -129,3 +129,25 @@ fn c18_as_trace_copies_level_and_target() {
     assert!(m.line() == Some(7) && m.file().map(|f| f.len()) == Some(4) && m.module_path().map(|f| f.len()) == Some(1), "C18.as_trace.file_line_module");
     assert!(m.is_event(), "C18.as_trace.kind_event");
 }
+
+// the OTHER public entry point, format_trace (what env_logger integration installs): it has no LogTracer::enabled in
+// front of it, so dispatch_record's own question to the collector is the only gate
+#[kani::proof]
+#[kani::unwind(20)]
+#[kani::stub(core::fmt::Formatter::pad, pad_stub)]
+#[kani::stub(tracing_core::dispatch::get_default, get_default_stub)]
+#[kani::stub(tracing_core::metadata::LevelFilter::current, current_stub)]
+fn c18_format_trace_emits_one_event_iff_collector_accepts() {
+    let lvl: u8 = nd(); kani::assume(lvl >= 1 && lvl <= 5);
+    let accept: bool = nd();
+    let s = st(lvl);
+    let d = Dispatch::__verif_unregistered(Rec { accept, s: s.clone() });
+    install(&d, 5);
+    let rec = log::Record::builder().args(format_args!("hello")).level(ll(lvl)).target(TARGET).file(Some("f.rs")).line(Some(7)).module_path(Some("m")).build();
+    let r = crate::format_trace(&rec);
+    assert!(r.is_ok(), "C18.format_trace.ok");
+    assert!(s.enabled_calls.load(SeqCst) >= 1, "C18.format_trace.collector_is_asked");
+    assert!(s.events.load(SeqCst) == accept as usize, "C18.format_trace.exactly_one_event_iff_collector_accepts_else_none");
+    assert!(!accept || s.event_level.load(SeqCst) == lvl as usize, "C18.format_trace.event_carries_the_records_level");
+    assert!(s.meta_level_ok.load(SeqCst) == 1 && s.meta_target_ok.load(SeqCst) == 1, "C18.format_trace.collector_is_asked_about_the_records_own_level_and_target");
+}
